@@ -180,7 +180,7 @@ class ClassTable:
             ns = {"__copy__": _no_copy, "__deepcopy__": _no_copy, "__reduce_ex__": _no_copy, "__reduce__": _no_copy}
             if d.get("hashable", True):
                 return type(name, (), {"__repr__": lambda s: f"<{name}>", **ns})
-            return type(name, (), {"__eq__": lambda s, o: s is o, "__hash__": None, **ns})
+            return type(name, (), {"__eq__": lambda s, o: s is o, "__hash__": None, "__repr__": lambda s: f"<{name}>", **ns})
         if kind == "sub":
             base = {"str": str, "int": int, "dict": dict, "list": list, "float": float,
                     "tuple": tuple, "bytes": bytes, "set": set}[d["base"]]
